@@ -1236,7 +1236,11 @@ class CryptContext:
         # convert numbers to strings
         elif isinstance(value, numeric_types):
             if isinstance(value, float) and key[2] == "vary_rounds":
-                value = (f"{value:.2f}").rstrip("0") if value else "0"
+                # NOTE: repr() round-trips floats exactly ("%.2f" turned 0.125 into 0.12);
+                #       exponent notation is avoided, since the parser requires a "."
+                value = repr(value) if value else "0"
+                if "e" in value.lower():
+                    value = f"{float(value):.20f}".rstrip("0")
             else:
                 value = str(value)
 
